@@ -209,9 +209,28 @@ def to_scaffold_orientation(repo: Repo, L: Ledger, rule: str):
         if len(res) != 1 or res[0]["unknown_conds"]:
             raise AnalysisError(f"to_scaffold: orientation not decided by the bait strand alone (strand {strand}: {len(res)} paths)")
         rv = [e.node for e in res[0]["path"].events if e.kind == "return"][0].value
-        reverses = isinstance(rv, ast.Call) and isinstance(rv.func, ast.Attribute) and rv.func.attr == "reverse"
         if isinstance(rv, ast.IfExp):
             raise AnalysisError("to_scaffold: conditional expression in return not folded")
+        # number of .reverse() applications on the value that is returned, along this path
+        revs = {}
+
+        def rev_of(e):
+            if isinstance(e, ast.Name):
+                return revs.get(e.id, 0)
+            if isinstance(e, ast.Call) and isinstance(e.func, ast.Attribute) and e.func.attr == "reverse" and not e.args:
+                r_ = rev_of(e.func.value)
+                return None if r_ is None else r_ + 1
+            if isinstance(e, ast.Call) and (dotted(e.func) or "").split(".")[-1] in ("Scaffold", "__class__"):
+                return 0
+            return None
+
+        for e in res[0]["path"].events:
+            if e.kind == "stmt" and isinstance(e.node, ast.Assign) and len(e.node.targets) == 1 and isinstance(e.node.targets[0], ast.Name):
+                revs[e.node.targets[0].id] = rev_of(e.node.value)
+        k_ = rev_of(rv)
+        if k_ is None:
+            raise AnalysisError(f"to_scaffold: the returned value '{norm(rv)[:50]}' is not a scaffold built here, possibly reversed: form not understood")
+        reverses = k_ % 2 == 1
         if reverses != (strand == -1):
             ok, why = False, f"with bait strand {strand} the fused piece is {'reversed' if reverses else 'not reversed'} (must be reversed exactly for -1; unknown strand streams forward)"
     L.check(ok, rule, ts.short, "reversed exactly when the bait is on the minus strand", why, ts.loc())
